@@ -35,7 +35,7 @@ func main() {
 		drv:   drv,
 		tieC:  res.Tie("coll-seq", "K1", "random call sequences on a Collection (ids from {'',a,b,c,A,B}+generated, every subset of the write/read options, id interceptors, fixed/ticking clock, scripted rng incl. forced collisions/exhaustion); compared per call: result, code, bus events, callbacks, contents with stored times, clock. distinct = distinct (config, call, contents-before)"),
 		tieV:  res.Tie("value-seq", "K1", "random call sequences on a Value (with/without initial value, writable fields, all write options); compared per call as above"),
-		tieS:  res.Tie("small-scope", "K2", "ALL call sequences up to the stated length over ids {a,b}, values {1//-,2/x/-}, ops add/upd/upd+create/del/del+allow-missing/get/list; distinct = distinct sequences"),
+		tieS:  res.Tie("small-scope", "K2", "ALL call sequences up to the stated length over ids {a,b}, values {1//-,2/x/-}, ops add/upd/upd+create/del/del+allow-missing/get/list; and (length <=3) ALL sequences under the lower-casing id interceptor over ids {a,A,''} with id generation from a colliding rng, and ALL sequences of writes on one Value / one item with restricted writable fields, each write widening them its own way (none, all-writable, more-writable, update mask, reset mask); distinct = distinct sequences"),
 		tieO: res.Tie("shared-options", "K2", "ALL call sequences up to the stated length over add/upd/del/get/list on one id where every call takes a view opts[:k] (every k) of ONE option slice with spare capacity (a caller re-using its option list): compared per call as above; distinct = distinct sequences"),
 		tieM: res.Tie("mask-shapes", "K2", "ALL combinations of writable fields x update mask x reset mask x stored message x written message over masks naming the nested message field, its sub-fields, both, and other fields (parents/children), one Update (create-if-absent) followed by Gets under nested read masks; compared per call as above; distinct = distinct combinations"),
 		mon:   res.Monitor("reference-map", "every call of every tie run is checked against a plain Go register/map oracle (fieldwise merge) and the property's clauses: failed call => contents and clock-free state unchanged and no bus event; List = sorted filtered contents; generated id non-empty, unused, reported once, usable"),
@@ -346,6 +346,12 @@ func fixedScripts() []Script {
 		{Cfg: Cfg{Kind: "coll", Tick: 1}, Ops: repeatOp(Op{Op: "add", ID: "", Msg: "1//-", Opts: []string{"gid", "icb", "ccb"}}, 11)},
 		// failing Add still fires the created callback
 		{Cfg: Cfg{Kind: "coll", Tick: 1}, Ops: []Op{{Op: "add", ID: "a", Msg: "1//-", Opts: []string{"ccb", "chk=fail:FailedPrecondition"}}, {Op: "list"}}},
+		// an update mask widened by WithMoreUpdateMask keeps its paths as given (fix 5cc1d68): a path inside
+		// another one is not dropped, so an unknown nested path is still rejected
+		{Cfg: Cfg{Kind: "coll", Tick: 1, Init: []string{"a~1/x/-/5:6/-"}}, Ops: []Op{
+			{Op: "upd", ID: "a", Msg: "2//-/7:0/-", Opts: []string{"um=f", "mum=fx"}},
+			{Op: "upd", ID: "a", Msg: "2//-/7:0/-", Opts: []string{"um=f,fx"}},
+			{Op: "upd", ID: "a", Msg: "2//-/7:0/-", Opts: []string{"mum=fx", "um=f", "mum=fc"}}, {Op: "get", ID: "a", Opts: []string{"rm=fx"}}}},
 		{Cfg: Cfg{Kind: "val", Tick: 1}, Ops: []Op{{Op: "vget"}, {Op: "vset", Msg: "1/x/-"}, {Op: "vset", Msg: "2//-", Opts: []string{"ev=1/x/-", "um=a"}}, {Op: "vget", Opts: []string{"rm=s"}}}},
 	}
 }
